@@ -47,6 +47,11 @@ def cases(rng, tier):
                 break
         stream = "int" if rng.random() < 0.5 else "float"
         t = gen_tensor(rng, shape, stream=stream)
+        if rng.random() < 0.15:
+            # Sobol indices do not depend on the scale of the model: small-magnitude tensors (variance far below 1) must give the same indices
+            sc = 10.0 ** -rng.choice([3, 4, 6, 9])
+            t = PT([np.asarray(t.cores[0], dtype=np.float64) * sc] + list(t.cores[1:]), t.Us)
+            stream = "float"
         wm = gen_tensor(rng, [2] * N, rmax=2, stream="int") if rng.random() < 0.3 else None
         mround = rng.random() < 0.3
         while True:   # un-rounded masks: keep the formal TT rank of the largest mask (the union used for additivity) moderate
@@ -78,9 +83,11 @@ def run_case(ctx, case):
     w = A.norm_marginals(shape, case["marginals"])
     terms, D = A.term_variances(x, w)
     var, mean = A.total_variance(x, w)
-    scale = max(1.0, amax(x))
+    scale = amax(x) if amax(x) < 1e-2 else max(1.0, amax(x))      # small-magnitude models are judged relative to their own size
     ctx.count("N:%d" % N); ctx.count("dd:" + dd)
-    if not var >= 1e-6 * scale ** 2:
+    if scale < 1e-2:
+        ctx.count("small-magnitude model")
+    if not (scale > 0 and var >= 1e-6 * scale ** 2):
         ctx.count("skipped: total variance below 1e-6 max|t|^2")
         return
     tol = 1e-8 if dd == "float64" else 1e-5
